@@ -114,7 +114,7 @@ class LDMMaintenance:
         except (KeyError, json.decoder.JSONDecodeError) as e:
             print(f"Error updating data container: {str(e)}")
 
-    def del_provider_data(self, data_object: dict) -> None:
+    def del_provider_data(self, data_object: dict) -> bool:
         """
         Method created in order to delete data from the data containers.
 
@@ -123,10 +123,11 @@ class LDMMaintenance:
         id : int
         """
         try:
-            self.data_containers.remove(data_object)
+            return self.data_containers.remove(data_object) is not False
         except (ValueError, KeyError, json.decoder.JSONDecodeError) as e:
             print(
                 f"Error deleting data container: {str(e)}, data_containers {len(self.data_containers.all())}")
+            return False
 
     def get_all_data_containers(self) -> tuple[dict, ...]:
         """
